@@ -118,7 +118,7 @@ pub fn run(tier: Tier) -> i32 {
     let mut rep = Report::new(
         "C19",
         tier,
-        "exhaustive: all paths of <= 6 steps over {2 keys, 2 indices} and <= 4 steps over {3 keys incl. empty and non-ASCII, 3 indices incl. 0 and usize::MAX}; \
+        "exhaustive: all paths of <= 6 steps over {2 keys, 2 indices} and <= 4 steps over {4 keys incl. empty, non-ASCII and the digit key \"0\", 3 indices incl. 0 and usize::MAX}; \
          random paths up to 200 steps; oracle: to_owned().path == pushed steps, is_origin <=> empty, first_field/last_field == first/last key step; \
          non-trivial = >= 2 steps with both step kinds; distinct by path",
     );
@@ -129,6 +129,7 @@ pub fn run(tier: Tier) -> i32 {
         Step::Key("".into()),
         Step::Key("k".into()),
         Step::Key("日本 é".into()),
+        Step::Key("0".into()),
         Step::Index(0),
         Step::Index(7),
         Step::Index(usize::MAX),
@@ -136,7 +137,8 @@ pub fn run(tier: Tier) -> i32 {
     enumerate(&a2, 4, &mut rep);
     let n = tier.pick(20_000, 1_000_000);
     let mut rng = rng_for(rep.seed, "C19", 0, 0);
-    let keys = ["", "a", "toto", "tata", "lol", "x.y", "[0]", "日本", "a b", "`"];
+    // (keys that look like indices or numbers must stay keys)
+    let keys = ["", "a", "toto", "tata", "lol", "x.y", "[0]", "日本", "a b", "`", "0", "1", "42", "007", "+5", "-1", "18446744073709551615", "1e3", " 7", "0x10"];
     for i in 0..n {
         let len = if rng.random_range(0..10) == 0 { rng.random_range(0..200) } else { rng.random_range(0..12) };
         // bias: sometimes no key at all, sometimes keys only
